@@ -339,7 +339,9 @@ class CanaryDeployer(Entity):
         # Schedule periodic evaluation
         return [
             Event(
-                time=self.now + Duration.from_seconds(self._evaluation_interval),
+                # A positive evaluation interval below the 1 ns clock resolution truncates to
+                # a zero Duration; keep the evaluation loop moving forward in time.
+                time=self.now + max(Duration.from_seconds(self._evaluation_interval), Duration(1)),
                 event_type="_canary_evaluate",
                 target=self,
                 context={},
@@ -403,7 +405,9 @@ class CanaryDeployer(Entity):
         # Continue evaluating
         return [
             Event(
-                time=self.now + Duration.from_seconds(self._evaluation_interval),
+                # A positive evaluation interval below the 1 ns clock resolution truncates to
+                # a zero Duration; keep the evaluation loop moving forward in time.
+                time=self.now + max(Duration.from_seconds(self._evaluation_interval), Duration(1)),
                 event_type="_canary_evaluate",
                 target=self,
                 context={},
